@@ -97,7 +97,10 @@ COMMENTS = frozenset([
 # an explicit semicolon that follows after nothing but white space, line
 # terminators and comments
 PATT_SEMI_AHEAD = re.compile(
-    r'(?:[\s\ufeff]|/\*.*?\*/|//[^\n\r\u2028\u2029]*)*;', flags=re.S)
+    r'(?:[\s\ufeff]'
+    r'|/\*(?:[^*]|\*(?!/))*\*/'
+    r'|//[^\n\r\u2028\u2029]*(?=[\n\r\u2028\u2029]|$)'
+    r')*;')
 
 PATT_LINE_TERMINATOR_SEQUENCE = re.compile(
     r'(\n|\r(?!\n)|\u2028|\u2029|\r\n)', flags=re.S)
